@@ -1508,6 +1508,9 @@ class FileBuilder:
             try:
                 os.mkdir(parent)
             except FileExistsError:
+                # e.g. a directory from the previous build. Virtually, we are
+                # the ones who created it.
+                made_dirs.append(parent)
                 continue
             except OSError:
                 # Don't leave behind the directories we just created, since
